@@ -379,6 +379,22 @@ func (f *Frame) phiSymsOf(ph *ssa.Phi) []*Sym {
 		for s := range m {
 			r = append(r, s)
 		}
+		if v.nilSym != nil {
+			r = append(r, v.nilSym)
+		}
+	case ABool:
+		// a loop-carried boolean: its symbol must not keep the value of the entry edge
+		m := map[*Sym]bool{}
+		collectFormSyms(v.f, m)
+		for s := range m {
+			r = append(r, s)
+		}
+	case ARef:
+		for _, s := range []*Sym{v.nilSym, v.deepNil, v.idSym} {
+			if s != nil {
+				r = append(r, s)
+			}
+		}
 	}
 	return r
 }
